@@ -51,6 +51,9 @@ def step (f : Flags) (c : Call) (o : Outcome) (tr : List Ev) : Flags :=
   | .close => if o.ret = 1 ∧ !f.closed then { f with connected := false, closed := true, listening := false } else f   -- idempotent
   | _ => f
 
+/-- what the caller of `p_socket_shutdown` means by two `pboolean`s: every non-zero value is TRUE -/
+def shutdownArgs (rd wr : Int) : Bool × Bool := (rd ≠ 0, wr ≠ 0)
+
 /-- flags of a socket just made by `p_socket_new` -/
 def fresh : Flags := { timeout := 0, backlog := defaultBacklog, blocking := true }
 
